@@ -100,7 +100,10 @@ def run(ck, F, tier):
     rd = td.eval(db.value, envd)
     al = [e for e in td.events if e.callee.endswith("from_elem")]
     cp = [e for e in td.events if e.callee.endswith("copy_from_slice")]
-    muts = [n for n in walk(db.value) if n.get("k") in ("assign", "assignop") or (n.get("k") == "mcall" and n.get("recv_adj", "").startswith("&mut") and "output" in repr(n["recv"])[:200])]
+    from ..trace import plain_local
+    # assignments to other plain locals (a running offset, a slice cursor over the input) do not write the output vector
+    elsewhere = lambda n: plain_local(n["l"]) is not None and "Vec<" not in strip(n["l"]).get("ty", "Vec<")
+    muts = [n for n in walk(db.value) if (n.get("k") in ("assign", "assignop") and not elsewhere(n)) or (n.get("k") == "mcall" and n.get("recv_adj", "").startswith("&mut") and "output" in repr(n["recv"])[:200])]
     ok = len(al) == 1 and al[0].args[0] == app("std::default::Default::default") and len(cp) == 1 and len(muts) <= 1
     ck.inst("B2", "depuncture:neutral-fill", ok, db.span, "output = vec![T::default(); ..]; the only write to it is the copy of kept blocks (%d copy site, %d mutation sites)" % (len(cp), len(muts)))
 
